@@ -104,27 +104,28 @@ CHECKS = {
         engine="H6-storage", technique="runtime monitoring: byte-exact file oracle under injected short writes (interposed pwrite)",
         level="exploration", design_ref="DESIGN.md section 4 / H6 / C14",
         text="10^5 cycles of set/start/append*/stop on real raw devices with random frame sizes, packet groupings, URI "
-             "spellings, repeated cycles per device and random short writes injected below file_write; the resulting "
-             "file must equal the concatenation of the appended packets byte for byte.",
+             "spellings, repeated cycles per device (with and without re-configuration), random short writes injected "
+             "below file_write, and a neighbouring raw device that fails to start on a locked file and is closed at "
+             "various points; the resulting file must equal the concatenation of the appended packets byte for byte.",
         note="fresh path per cycle; real filesystem of the sandbox; write errors are C16's"),
     "C15": dict(
         engine="H6-storage", technique="runtime monitoring: independent BigTIFF reader as offline oracle over generated acquisitions",
         level="exploration", design_ref="DESIGN.md section 4 / H6 / C15",
         text="Every file produced by tiff and tiff-json over thousands of generated acquisitions (all sample types, "
              "N=1..40, packet groupings, metadata variants incl. change-to-empty, pixel scales, URI spellings, repeated "
-             "cycles, short writes) is parsed by a reader written from the BigTIFF layout: header, exact chain length, "
+             "cycles, short writes, plus sparse files of 4.3-7 GiB) is parsed by a reader written from the BigTIFF layout: header, exact chain length, "
              "zero terminator, bounds, pairwise disjoint structures, per-frame shape/format, strip bytes, description "
              "JSON ids/timestamps, user metadata placement.",
         note="trusts lib/bigtiff.py (~150 lines) and Python's json; tag order is not required (the property does not state it)"),
     "C16": dict(
-        engine="H6-storage", technique="runtime monitoring: fault enumeration over every OS-level open/pwrite index x failure mode, one process per fault, descriptor ledger",
+        engine="H6-storage", technique="runtime monitoring: fault enumeration over every OS-level open/flock/pwrite index x failure mode, one process per fault, descriptor ledger",
         level="fault_enumeration", design_ref="DESIGN.md section 4 / H6 / C16",
-        text="All (kind x life-cycle template x open/pwrite call index x mode) combinations are executed, each in its own "
+        text="All (kind x life-cycle template x open/flock/pwrite call index x mode) combinations are executed, each in its own "
              "process with a 1 MiB stack and a watchdog: crash, sanitizer report, runaway recursion or repeated hang is a "
              "violation; the device must not be Running at the end of an append in which a write failed; every "
              "pwrite/flock/close must target a descriptor the device opened and has not closed, and none may stay open "
              "after close. Exhaustive over the enumerated templates only.",
-        note="single-fault and persistent-fault modes at pwrite/open; close/fsync errors not injected; 8 templates"),
+        note="single-fault and persistent-fault modes at pwrite/open/flock; close/fsync errors not injected; 8 templates"),
     "C17": dict(
         engine="H7-simcam", technique="runtime monitoring: ASan+UBSan over generated configurations + shape/read-back/fill-coverage oracles",
         level="exploration", design_ref="DESIGN.md section 4 / H7 / C17",
@@ -136,11 +137,11 @@ CHECKS = {
     "C18": dict(
         engine="H7-simcam", technique="runtime monitoring: multi-threaded trace oracle (ids, trigger accounting) with injected delays; bounded-progress check for stop",
         level="exploration", design_ref="DESIGN.md section 4 / H7 / C18",
-        text="Consumer, trigger and stopper threads drive 3-6 runs per camera with delays injected at the camera's own "
+        text="Consumer, trigger and stopper threads drive 3-6 runs per camera (re-configured or started again as is) with delays injected at the camera's own "
              "suspension points; the trigger counter is bumped before each trigger call so 'frames <= triggers', 'no "
              "frame without trigger' and 'id < triggers since start' are sound under every schedule; ids must strictly "
              "increase; stop must return and release a pending get_frame (watchdog + confirmation re-run).",
-        note="schedules are sampled, not enumerated; liveness only as bounded progress; pacing bound assumes >=1 exposure per frame"),
+        note="schedules are sampled, not enumerated; liveness only as bounded progress; free-running pacing is counted, not judged"),
     "C12": dict(
         engine="H4-devicemanager", technique="runtime monitoring: differential oracle (python re.fullmatch over the enumerated names) + crash/ASan monitoring per library layout",
         level="exploration", design_ref="DESIGN.md section 4 / H4 / C12",
@@ -162,7 +163,7 @@ CHECKS = {
         level="exploration", design_ref="DESIGN.md section 4 / H2 / C05",
         text="Every packet handed to the mock storage and every region mapped by the client is walked: alignment, size field, exact "
              "chaining, shape equality with the camera's frame; shapes cover all size residues mod 8, all sample types, mid-run "
-             "shape changes, wrap positions and partial client consumption.", note=_RT_NOTE),
+             "shape changes, wrap positions, partial client consumption, and acquisitions wound down by a camera or storage fault.", note=_RT_NOTE),
     "C06": dict(
         engine="H2-runtime", technique="runtime monitoring: client-side sequence oracle with epoch-tagged frames across acquisitions",
         level="exploration", design_ref="DESIGN.md section 4 / H2 / C06",
